@@ -108,6 +108,13 @@ def h_gl(a):
     return a + t
 
 
+_h_list = [
+    lambda j: j * 3,
+    lambda j: j + 200,
+]
+h_l1, h_l2 = _h_list
+
+
 def h_kwi(a, b):
     return (lambda a, b: a * 10 + b)(b=a, a=b)
 
